@@ -92,7 +92,11 @@ func (c02Sys) Root() *c02State {
 	return &c02State{ctx: ctx, w: w, fx: fx}
 }
 
-func (c02Sys) Digest(s *c02State) [32]byte { return s.w.Digest(s.ctx) }
+// the model is part of the state key: a change that turns an operation into a no-op on the stores must
+// not make the successor look like an already visited state (its model differs, and Check has to see it)
+func (c02Sys) Digest(s *c02State) [32]byte {
+	return s.w.Digest(s.ctx, []byte(fmt.Sprint(s.outs, s.paid)))
+}
 
 func (c02Sys) Letters(s *c02State) []engine.Letter {
 	var ls []engine.Letter
